@@ -268,6 +268,10 @@ def check(prog, res, tier):
     res.add(runs_d.judge('C02.c', 'message = MTI ++ bitmap(16 raw | 32 hex) ++ elements; bit n set iff element n emitted, in loop order',
                          func_where(dfi), 'bitmap_values[bit - 1] = True; output_data += _field_to_iso8583(...)', chk_c))
 
+    res.add(presence_ob(prog, res, dfi))
+    if prog.has_func('iso8583._icc_to_dict'):
+        res.add(icc_tag_ob(prog, res))
+
     # loop domain and initial bitmap
     def chk_c2(p, mode):
         fails = []
@@ -302,3 +306,127 @@ def check(prog, res, tier):
         return [soft('BitArray.fromlist call not found')]
     res.add(runs_d.judge('C02.c', 'the bit list has 128 entries and bit 1 is always set', func_where(dfi),
                          'bitmap_values = [False] * 128; bitmap_values[0] = True', chk_c3, rule='C02.c.bits'))
+
+
+
+def presence_ob(prog, res, dfi):
+    """C02.c: numeric zero values are emitted, absent / empty values are not (the bit is set accordingly)."""
+    PROBES = ('int0', 'dec0', 'none', 'empty')
+
+    def field_summary(it, fi_, args, kwargs, node, self_obj):
+        it.user.setdefault('emitted', []).append(it.seqno)
+        return it.sym_bytes('element')
+
+    def pds_summary(it, fi_, args, kwargs, node, self_obj):
+        return ListV(items=[], desc='pds strings')
+
+    def entry(it):
+        msg = DictV(open_=True, desc='message')
+
+        def default(it2, key, node, strict):
+            c = it2.choose(len(PROBES), 'probe value')
+            name = PROBES[c or 0]
+            it2.user['probe'] = name
+            if name == 'int0':
+                return IntV(0)
+            if name == 'dec0':
+                v = SymV('decimal_zero', 'decimal')
+                it2.binds[('truth', 'decimal_zero')] = False
+                it2.binds[('eqs', 'decimal_zero')] = {0: True}
+                return v
+            if name == 'none':
+                return ConstV(None)
+            return seqops.lit('')
+        msg.default = default
+        msg.items['MTI'] = it.sym_str('MTI', lo=4, hi=4, charset='digits')
+        return it.call_function(dfi, [msg, common.generic_bit_config(it), codec(it), ConstV(False)], {})
+    runs = Runs(prog, entry, summaries={FIELD: field_summary, 'iso8583._pds_to_de': pds_summary}, hooks=common.HOOKS, res=res)
+
+    def chk(p, mode):
+        fails = []
+        for first, last, s0, s1, head in iterations(p, func=dfi.short):
+            if not isinstance(head.node, ast.For):
+                continue
+            probe = p.interp.user.get('probe')
+            if probe is None:
+                continue
+            emitted = [x for x in p.interp.user.get('emitted', []) if first < x < last]
+            bits = [e for e in p.events if first < e.seq < last and e.kind == 'setitem' and isinstance(e.data['obj'], ListV)
+                    and e.func == dfi.short]
+            want = probe in ('int0', 'dec0')
+            label = {'int0': 'the integer 0', 'dec0': 'a zero Decimal', 'none': 'an absent value (None)', 'empty': 'an empty string'}[probe]
+            if want and not (emitted and bits):
+                fails.append(definite(f'{label} is not emitted: zero amounts are dropped from the message', head.node))
+            if not want and (emitted or bits):
+                fails.append(definite(f'{label} is emitted as an element', head.node))
+        return fails
+    return runs.judge('C02.c', 'an element is emitted (and its bit set) for numeric zero values, and not for absent or empty values',
+                      func_where(dfi), "if message.get('DE' + str(bit)) or message.get('DE' + str(bit)) == 0", chk, rule='C02.c.presence',
+                      unknown_ok=lambda u: True)
+
+
+def icc_tag_ob(prog, res):
+    """C02.e: TLV tags are two bytes exactly when the first byte is 0x9f or 0x5f (documented reading)."""
+    fi = prog.func('iso8583._icc_to_dict')
+    PROBES = ((0x9f, 2), (0x5f, 2), (0x82, 1), (0x1f, 1), (0x9a, 1), (0xbf, 1), (0x5a, 1))
+
+    def entry(it):
+        c = it.choose(len(PROBES), 'first tag byte')
+        first, want = PROBES[c or 0]
+        rest = it.sym_bytes('rest', lo=4, tags=frozenset(['wire']))
+        data = seqops.concat(it, seqops.lit(bytes([first])), rest)
+        it.user.update(first=first, want=want, rest=rest)
+        return it.call_function(fi, [data], {})
+    runs = Runs(prog, entry, res=res)
+
+    def tag_keys(p, first=0, last=None):
+        for e in p.events:
+            if e.seq <= first or (last is not None and e.seq >= last):
+                continue
+            if e.kind == 'setitem' and e.func == fi.short and isinstance(e.data['key'], SeqV) and e.data['key'].segs \
+                    and isinstance(e.data['key'].segs[0], Lit) and str(e.data['key'].segs[0].data).startswith('TAG'):
+                yield e
+
+    def chk(p, mode):
+        first, want = p.interp.user['first'], p.interp.user['want']
+        st = p.store
+        if mode == 'unroll':
+            # the first TAG key stored belongs to the probe byte: 'TAG' + hex of the tag bytes
+            for e in tag_keys(p):
+                n = st.canon(e.data['key'].length() - 3)
+                if n.is_const():
+                    got = n.c // 2
+                    if got != want:
+                        return [definite(f'a tag starting with byte {first:#04x} is read as {got} byte(s), the documented reading is {want}', e.node)]
+                return []
+            return []
+        # inductive run: per iteration, the tag is two bytes iff its first byte compared equal to 9F or 5F
+        fails = []
+        for f0, l0, s0, s1, head in iterations(p, func=fi.short):
+            keys = list(tag_keys(p, f0, l0))
+            if not keys:
+                continue
+            n = st.canon(keys[0].data['key'].length() - 3)
+            if not n.is_const():
+                fails.append(soft('tag key width is not constant'))
+                continue
+            got = n.c // 2
+            lits = {}
+            for kind, truth, data in p.facts:
+                if kind == 'seq-eq':
+                    for x, y in ((data['a'], data['b']), (data['b'], data['a'])):
+                        if isinstance(y, SeqV) and y.is_lit() and isinstance(y.lit_value(), bytes) and len(y.lit_value()) == 1:
+                            lits[y.lit_value()] = truth
+            if set(lits) - {b'\x9f', b'\x5f'}:
+                fails.append(definite(f'two-byte tags are recognised by first bytes {sorted(lits)}, documented are 9F and 5F', keys[0].node))
+            elif not lits:
+                fails.append(soft('the two-byte tag rule is not a comparison with the documented prefixes'))
+            else:
+                two = any(lits.values())
+                if (got == 2) != two:
+                    fails.append(definite(f'tag width {got} although the 9F/5F test was {two}', keys[0].node))
+                if not two and set(lits) != {b'\x9f', b'\x5f'}:
+                    fails.append(definite(f'a one-byte tag is assumed after testing only {sorted(lits)}', keys[0].node))
+        return fails
+    return runs.judge('C02.e', 'ICC TLV tags are two bytes exactly for first bytes 9F and 5F, one byte otherwise', func_where(fi),
+                      "if field_tag in TWO_BYTE_TAG_PREFIXES", chk, rule='C02.e.icc_tags', unknown_ok=lambda u: True)
